@@ -7,7 +7,7 @@ use std::io::{BufRead, Write};
 use std::panic::{catch_unwind, AssertUnwindSafe};
 
 use bytes::{Bytes, BytesMut};
-use interp::{err_class, read_val, write_val, BinApi};
+use interp::{err_class, len_val, read_val, write_val, BinApi};
 use linkedbytes::LinkedBytes;
 use pilota::thrift::{
     binary::TBinaryProtocol, binary_le::TBinaryProtocol as TBinaryLeProtocol,
@@ -19,6 +19,8 @@ use val::{hex, parse_val, show_val, ttype_code, unhex, TVal, Toks};
 pub struct Written {
     pub bytes: Vec<u8>,
     pub zc_len: usize,
+    /// sum of the sizes computed by the length pass, each just before the value is written
+    pub len: usize,
 }
 
 fn linked_concat(lb: &mut LinkedBytes) -> Vec<u8> {
@@ -89,11 +91,14 @@ fn parse_bk(s: &str) -> Result<Bk, String> {
     })
 }
 
-fn write_all<P: TOutputProtocol>(p: &mut P, vs: &[TVal], api: BinApi) -> Result<usize, ThriftException> {
+fn write_all<P: TOutputProtocol>(p: &mut P, vs: &[TVal], api: BinApi) -> Result<(usize, usize), ThriftException> {
+    let mut len = 0;
     for v in vs {
+        // size first, then encode, on the same protocol object -- as callers do
+        len += len_val(p, v);
         write_val(p, v, api)?;
     }
-    Ok(p.zero_copy_len())
+    Ok((p.zero_copy_len(), len))
 }
 
 /// writes `vs` back to back with one protocol instance on one buffer
@@ -101,21 +106,21 @@ pub fn write_vals(pk: Pk, bk: Bk, vs: &[TVal], api: BinApi) -> Result<Written, T
     match bk {
         Bk::Contig => {
             let mut buf = BytesMut::new();
-            let zc = match pk {
+            let (zc, len) = match pk {
                 Pk::Binary => write_all(&mut TBinaryProtocol::new(&mut buf, false), vs, api)?,
                 Pk::BinaryLe => write_all(&mut TBinaryLeProtocol::new(&mut buf, false), vs, api)?,
                 Pk::Compact => write_all(&mut TCompactOutputProtocol::new(&mut buf, false), vs, api)?,
             };
-            Ok(Written { bytes: buf.to_vec(), zc_len: zc })
+            Ok(Written { bytes: buf.to_vec(), zc_len: zc, len })
         }
         Bk::Linked(z) => {
             let mut lb = LinkedBytes::new();
-            let zc = match pk {
+            let (zc, len) = match pk {
                 Pk::Binary => write_all(&mut TBinaryProtocol::new(&mut lb, z), vs, api)?,
                 Pk::BinaryLe => write_all(&mut TBinaryLeProtocol::new(&mut lb, z), vs, api)?,
                 Pk::Compact => write_all(&mut TCompactOutputProtocol::new(&mut lb, z), vs, api)?,
             };
-            Ok(Written { bytes: linked_concat(&mut lb), zc_len: zc })
+            Ok(Written { bytes: linked_concat(&mut lb), zc_len: zc, len })
         }
     }
 }
@@ -158,7 +163,7 @@ fn suite_rt(t: &mut Toks) -> Result<String, String> {
         Ok(Err(e)) => return Ok(format!("WERR {}", show_err(&e))),
         Ok(Ok(w)) => w,
     };
-    let mut out = format!("W {} Z {}", hex(&w.bytes), w.zc_len);
+    let mut out = format!("W {} Z {} L {}", hex(&w.bytes), w.zc_len, w.len);
     let mut input = w.bytes.clone();
     input.extend_from_slice(&rest);
     let tys: Vec<u8> = vs.iter().map(ttype_code).collect();
